@@ -35,6 +35,7 @@ def bucketStores (g : Grammar) (maxchar : Nat) : Str â†’ List Str â†’ List Nat â
 /-- The whole check: counters, headers and one storing stream per bucket. -/
 def storesB (S : List Str) (d : D) : Bool :=
   decide (2 â‰¤ d.bucketsize) && decide (d.elements = S.length) &&
+  decide (d.buckets = (chunks d.bucketsize S).length) &&
   decide (d.headers = (chunks d.bucketsize S).map (Â·.headD [])) &&
   decide (d.streams.length = (chunks d.bucketsize S).length) &&
   ((chunks d.bucketsize S).zip d.streams).all fun cs => bucketStores d.g d.maxchar (cs.1.headD []) (cs.1.drop 1) cs.2
